@@ -9,7 +9,8 @@ ID = "C11"
 PROP_FILE = "props/C11.v"
 COQ_TARGETS = ["props/C11.v"]
 THEOREMS = ["C11_condition_meaning", "C11_any", "C11_all", "C11_any_empty_refuted", "C11_invoked_char", "C11_exact_partial", "C11_exact_sole",
-            "C11_no_miss", "C11_exact_refuted", "C11_guard_partial", "C11_unguarded_site", "C11_guard_refuted"]
+            "C11_no_miss", "C11_exact_refuted", "C11_guard_partial", "C11_unguarded_site", "C11_guard_refuted",
+            "C11_raising_conditions", "C11_raising_conditions_guarded", "C11_raising_evaluation"]
 TRUSTED_BASE = [
     "Coq 8.16.1 kernel, vm_compute for the in-coqc correspondence",
     "tools/translators/gen_pred.py: regenerates every boolean decision of predicate.py (dynamic_call, .static, any/all coalescing), the delivery test of "
@@ -17,7 +18,9 @@ TRUSTED_BASE = [
     "model/Pred.v: hand-written recursion over predicate structures, the site / delivery / local-guard composition (tied by the two correspondences below)",
     "tools/impl/ref_instr.py as the definition of the occurrences of an event (C02), the data language of node conditions interpreted on the plain AST",
 ]
-ASSUMPTIONS = ["handlers are observing; AST bookkeeping is on (dynamic conditions receive the node)", "composites are built with CompositePredicate.any / .all (never empty)",
+ASSUMPTIONS = ["handlers are observing; AST bookkeeping is on (dynamic conditions receive the node)",
+               "conditions are functions of the node (they may raise on nodes they were not written for: that counts as not satisfied); a stateful condition is outside the quantifier "
+               "(a dynamic condition is evaluated at rewrite time too, by design: `static decision at rewrite time ... dynamic re-check at delivery`)", "composites are built with CompositePredicate.any / .all (never empty)",
                "local guards follow the documented protocol: the names are defined (False) in the module before use"]
 
 SIG_STATIC = "a wholly static condition is not re-checked at delivery: with another handler on the same event the handler also runs at nodes its condition rejects"
@@ -54,11 +57,24 @@ def coq_env(bits):
     return "(fun c => nth (N.to_nat c) [%s] false)" % "; ".join("true" if b else "false" for b in bits)
 
 
+def coq_envx(vals):
+    """truth values of the base conditions at one node; None = the condition raises there"""
+    return "(fun c => nth (N.to_nat c) [%s] None)" % "; ".join("None" if b is None else ("Some true" if b else "Some false") for b in vals)
+
+
+def gen_table(rng, ncond, n):
+    """table[c][i]: base condition c at node i - True / False / None (it raises: a condition written for another node shape)"""
+    pr = rng.choice([0.0, 0.0, 0.15, 0.35])
+    return [[None if rng.random() < pr else rng.random() < 0.5 for _ in range(n)] for _ in range(ncond)]
+
+
 HEADER = """From Coq Require Import List NArith Bool.
 Import ListNotations.
 From PyccoloV Require Import gen.PredGen model.Pred.
 Local Open Scope N_scope.
+Definition oenc (r : option bool) : N := match r with Some false => 0 | Some true => 1 | None => 2 end.
 """
+DEC = {0: False, 1: True, 2: "raise"}
 
 
 def coq_bool(x):
@@ -70,21 +86,25 @@ def k_pred(ctx, rng, n):
     for _ in range(n):
         ncond = 4
         nenv = 6
-        table = [[rng.random() < 0.5 for _ in range(nenv)] for _ in range(ncond)]
-        cases.append({"kind": "pred", "pred": gen_spec(rng, ncond), "table": table})
+        cases.append({"kind": "pred", "pred": gen_spec(rng, ncond), "table": gen_table(rng, ncond, nenv)})
     # directed: the coalescing corners
     for s in ([], [{"t": "true"}], [{"t": "false"}], [{"t": "false"}, {"t": "false"}], [{"t": "true"}, {"t": "base", "static": True, "c": 0}],
               [{"t": "false"}, {"t": "base", "static": False, "c": 1}]):
         for t in ("any", "all"):
             cases.append({"kind": "pred", "pred": {"t": t, "parts": s}, "table": [[True, False], [False, True], [True, True], [False, False]]})
+    # directed: a part that raises before / after a deciding part, alone, nested, static
+    B = lambda c, st=False: {"t": "base", "static": st, "c": c}
+    for pr in (B(0), B(0, True), {"t": "any", "parts": [B(0), B(1)]}, {"t": "any", "parts": [B(1), B(0)]}, {"t": "all", "parts": [B(0), B(1)]}, {"t": "all", "parts": [B(1), B(0)]},
+               {"t": "all", "parts": [B(0, True), B(1)]}, {"t": "any", "parts": [{"t": "all", "parts": [B(0), B(1)]}, B(2)]}):
+        cases.append({"kind": "pred", "pred": pr, "table": [[None, None, True, None], [True, False, None, None], [True, True, False, None]]})
     rcode, impl, out = lib.impl_run("c11_pred.py", cases, timeout=600)
     if impl is None:
         raise RuntimeError("implementation harness failed:\n" + out[-3000:])
     L = [HEADER]
     for i, c in enumerate(cases):
         envs = [[c["table"][k][e] for k in range(len(c["table"]))] for e in range(len(c["table"][0]))]
-        L.append("Eval vm_compute in (let p := %s in (ident_of p, p_static p, map (fun env => (callp env p, dynp env p)) [%s]))."
-                 % (coq_pred(c["pred"]), "; ".join(coq_env(b) for b in envs)))
+        L.append("Eval vm_compute in (let p := %s in (ident_of p, p_static p, map (fun envx => (oenc (fst (evalx envx p)), oenc (snd (evalx envx p)))) [%s]))."
+                 % (coq_pred(c["pred"]), "; ".join(coq_envx(b) for b in envs)))
     rc_, o = lib.coq_eval("c11_kpred", "\n".join(L) + "\n", timeout=600)
     vals = lib.parse_marked(o) if rc_ == 0 else []
     bad = []
@@ -97,7 +117,7 @@ def k_pred(ctx, rng, n):
             bad.append({"case": c, "impl": im})
             continue
         m = lib.parse_coq_list(v)
-        mod = {"ident": m[0], "static": coq_bool(m[1]), "rows": [[coq_bool(a), coq_bool(b)] for a, b in m[2]]}
+        mod = {"ident": m[0], "static": coq_bool(m[1]), "rows": [[DEC[a], DEC[b]] for a, b in m[2]]}
         if mod != {k: im[k] for k in ("ident", "static", "rows")}:
             bad.append({"case": c, "model": mod, "impl": im})
         else:
@@ -109,7 +129,7 @@ def k_pred(ctx, rng, n):
 
 def gen_inv(rng):
     ncond, n = 4, 6
-    table = [[rng.random() < 0.5 for _ in range(n)] for _ in range(ncond)]
+    table = gen_table(rng, ncond, n)
     tracers = []
     guarded = rng.random() < 0.4
     for _ in range(rng.choice([1, 1, 2])):
@@ -137,6 +157,11 @@ def k_inv(ctx, rng, n):
     cases.append({"kind": "inv", "table": T, "n": 6, "tracers": [[{"pred": {"t": "all", "parts": [{"t": "base", "static": True, "c": 0}, {"t": "base", "static": False, "c": 1}]}}], [{"pred": {"t": "true"}}]], "G": {}})
     cases.append({"kind": "inv", "table": T, "n": 6, "tracers": [[{"pred": {"t": "true"}, "guard": [0] * 6}, {"pred": {"t": "true"}, "guard": [1] * 6}]],
                   "G": {"2": {"0": True}, "4": {"0": False, "1": True}}})
+    # directed: one handler's condition raises where the other's holds, both registration orders, one and two tracers (fixed c224119)
+    TR = [[None, None, True, False, None, True], [True, False, True, None, None, False], [False] * 6, [True] * 6]
+    h0, h1 = {"pred": {"t": "base", "static": False, "c": 0}}, {"pred": {"t": "base", "static": False, "c": 1}}
+    for trs in ([[h0, h1]], [[h1, h0]], [[h0], [h1]], [[h1], [h0]], [[{"pred": {"t": "all", "parts": [h0["pred"], h1["pred"]]}}, h1]]):
+        cases.append({"kind": "inv", "table": TR, "n": 6, "tracers": trs, "G": {}})
     rcode, impl, out = lib.impl_run("c11_pred.py", cases, timeout=900)
     if impl is None:
         raise RuntimeError("implementation harness failed:\n" + out[-3000:])
@@ -148,11 +173,11 @@ def k_inv(ctx, rng, n):
         rows = []
         for i in range(c["n"]):
             cur.update({int(k): v for k, v in (c["G"].get(str(i)) or {}).items()})
-            env = coq_env([c["table"][k][i] for k in range(len(c["table"]))])
+            env = coq_envx([c["table"][k][i] for k in range(len(c["table"]))])
             Gf = "(fun g => nth (N.to_nat g) [%s] false)" % "; ".join("true" if cur.get(g) else "false" for g in range(2))
             gs = [h["guard"][i] for h in hs if h.get("guard") is not None and h["guard"][i] is not None]
             hl = "; ".join("(%s, %s)" % (coq_pred(h["pred"]), ("Some %d" % h["guard"][i]) if h.get("guard") is not None and h["guard"][i] is not None else "None") for h in hs)
-            rows.append("map (fun pg : pred * option N => invoked_g %s %s %s [%s] (fst pg) (snd pg)) [%s]" % (env, Gf, preds, "; ".join(map(str, gs)), hl))
+            rows.append("map (fun pg : pred * option N => oenc (invoked_gx %s %s %s [%s] (fst pg) (snd pg))) [%s]" % (env, Gf, preds, "; ".join(map(str, gs)), hl))
         L.append("Eval vm_compute in [%s]." % "; ".join(rows))
     rc_, o = lib.coq_eval("c11_kinv", "\n".join(L) + "\n", timeout=900)
     vals = lib.parse_marked(o) if rc_ == 0 else []
@@ -161,13 +186,17 @@ def k_inv(ctx, rng, n):
         return cases, impl, 0
     bad, okc = [], 0
     for c, im, v in zip(cases, impl, vals):
-        if "crash" in im:
-            bad.append({"case": c, "impl": im})
-            continue
         m = lib.parse_coq_list(v)
+        aborted = any(b == 2 for row in m for b in row)        # the model says an exception leaves the rewrite
+        if "crash" in im:
+            if aborted and "escaped the rewrite" in im["crash"]:
+                okc += 1
+            else:
+                bad.append({"case": c, "impl": im, "model_says_rewrite_aborted": aborted})
+            continue
         flat = [(ti, hi) for ti, t in enumerate(c["tracers"]) for hi in range(len(t))]
-        model_calls = sorted([ti, hi, i] for i, row in enumerate(m) for (ti, hi), b in zip(flat, row) if coq_bool(b))
-        if model_calls != sorted(im["calls"]):
+        model_calls = sorted([ti, hi, i] for i, row in enumerate(m) for (ti, hi), b in zip(flat, row) if b == 1)
+        if aborted or model_calls != sorted(im["calls"]):
             bad.append({"case": c, "model_calls": model_calls, "impl_calls": sorted(im["calls"])})
         else:
             okc += 1
@@ -184,7 +213,7 @@ def meaning(spec, i, table):
     if t == "false":
         return False
     if t == "base":
-        return table[spec["c"]][i]
+        return table[spec["c"]][i] is True        # a condition that raises for the node is not satisfied by it
     vals = [meaning(p, i, table) for p in spec["parts"]]
     return any(vals) if t == "any" else all(vals)
 
